@@ -54,7 +54,7 @@ fn c07_time_extract() {
     kani::cover!(t == USECS_DAY - 1);
 }
 
-//@ unit c07_time_ctor prop=C07,C02 bound="every (u32 hour, u32 minute, u32 second, u32 microsecond)"
+//@ unit c07_time_ctor q23=1 prop=C07,C02 bound="every (u32 hour, u32 minute, u32 second, u32 microsecond)"
 fn c07_time_ctor() {
     let h: u32 = kani::any();
     let mi: u32 = kani::any();
@@ -96,7 +96,7 @@ fn c07_time_ctor() {
     }
 }
 
-//@ unit c07_time_from_usecs prop=C07,C02 bound="every i64 microsecond count"
+//@ unit c07_time_from_usecs q23=1 prop=C07,C02 bound="every i64 microsecond count"
 fn c07_time_from_usecs() {
     let t: i64 = kani::any();
     match Time::try_from_usecs(t) {
@@ -177,9 +177,7 @@ fn c07_ts_accessors() {
     assert!(d.hour().is_none() && d.minute().is_none() && d.second().is_none());
     assert!(DateTime::date(&d) == Some(d));
     assert!(DateTime::date(&ts) == Some(d));
-    // the time-of-day accessors are those of the time part (Time's own fields: s07_time_fields)
-    assert!(ts.hour() == mk_time(t).hour() && ts.minute() == mk_time(t).minute());
-    assert!(ts.second() == mk_time(t).second());
+    // (the time-of-day accessors of a timestamp: s07_ts_time_accessors, for every timestamp)
     kani::cover!(d.days() < 0 && t > 0);
     kani::cover!(m == 2 && dd == 29);
 }
@@ -199,7 +197,7 @@ fn in_ym(x: i128) -> bool {
     x >= -(YM_MAX as i128) && x <= YM_MAX as i128
 }
 
-//@ unit c08_date_days prop=C08,C02,C03 bound="every valid date x every i32 day offset: add_days, sub_days, sub_date and the derived laws"
+//@ unit c08_date_days q23=1 prop=C08,C02,C03 bound="every valid date x every i32 day offset: add_days, sub_days, sub_date and the derived laws"
 fn c08_date_days() {
     let n = any_i32_in(DAY_MIN, DAY_MAX);
     let k: i32 = kani::any();
@@ -238,7 +236,7 @@ fn c08_date_days() {
     assert!(d.sub_date(mk_date(m)) as i128 == n as i128 - m as i128);
 }
 
-//@ unit c08_date_usecs prop=C08,C02,C03 bound="every valid date x every valid day-time interval / time of day / timestamp: add/sub_interval_dt, add/sub_time, sub_timestamp"
+//@ unit c08_date_usecs prop=C08 tier=thorough timeout=3600 bound="every valid date x every valid day-time interval / time of day / timestamp: add/sub_interval_dt, add/sub_time, sub_timestamp"
 fn c08_date_usecs() {
     let n = any_i32_in(DAY_MIN, DAY_MAX);
     let i = any_i64_in(-DT_MAX, DT_MAX);
@@ -328,7 +326,7 @@ fn c08_ts_usecs() {
     assert!(d2.usecs() as i128 == a as i128 - (n as i64 * USECS_DAY) as i128 && in_dt(d2.usecs() as i128));
 }
 
-//@ unit c08_intervals prop=C08,C02,C03 bound="every pair of valid year-month intervals, every pair of valid day-time intervals, every day-time interval x time of day"
+//@ unit c08_intervals q23=1 prop=C08,C02,C03 bound="every pair of valid year-month intervals, every pair of valid day-time intervals, every day-time interval x time of day"
 fn c08_intervals() {
     let a = any_i32_in(-YM_MAX, YM_MAX);
     let b = any_i32_in(-YM_MAX, YM_MAX);
@@ -382,9 +380,8 @@ fn c08_intervals() {
     }
 }
 
-//@ unit c08_ts_add_days prop=C08,C02,C03 mem=4 timeout=1200 bound="every valid timestamp x every f64 (all 2^64 bit patterns incl. NaN, infinities): add_days/sub_days = offset*86400e6 rounded to the nearest microsecond, ties away from zero"
-fn c08_ts_add_days() {
-    let a = any_i64_in(TS_MIN, TS_MAX);
+//@ unit c08_ts_add_days prop=C08,C02,C03 chunks=ints:-62135596800000000,0,-1,221845392000000000,1,86399999999,253402300799999999 quickn=3 mem=5 timeout=1500/3600 bound="timestamp = the parameter (both range ends, the epoch and its neighbours, a date beyond the year 2255) x every f64 day offset (all 2^64 bit patterns incl. NaN, infinities): add_days/sub_days = offset*86400e6 rounded to the nearest microsecond (ties away from zero) added exactly; NaN -> InvalidNumber, infinite product -> NumericOverflow, out of range -> DateOutOfRange"
+fn c08_ts_add_days(a: i64) {
     let days: f64 = kani::any();
     let x = mk_ts(a);
     let p = days * 86_400_000_000.0;
@@ -509,7 +506,7 @@ fn c12_time_misc() {
 
 // ------------------------------------------------------------------------------------- C13
 
-//@ unit c13_ym prop=C13,C02,C03 bound="every valid year-month interval (all 4,272,000,001 values) and every (u32 year, u32 month) pair / i32 month count for the constructors"
+//@ unit c13_ym q23=1 prop=C13,C02,C03 bound="every valid year-month interval (all 4,272,000,001 values) and every (u32 year, u32 month) pair / i32 month count for the constructors"
 fn c13_ym() {
     let v = any_i32_in(-YM_MAX, YM_MAX);
     let x = mk_ym(v);
